@@ -35,8 +35,8 @@ def parse_to(ty, err):
 
 
 DECODE_SCRIPT = [
-    'if(let Some(_) = url::Url::path_segments(url)) > if((std::option::Option::unwrap(%s) != "")) > $m0 = %svirtual_host($m0, %sdecode::percent_decode(std::option::Option::unwrap(%s)))' % (SEG, OPT, U, SEG),
-    'if(let Some(_) = url::Url::path_segments(url)) > if(std::option::Option::is_some(%s)) > return errors::ExtraUrlPathSegmentsSnafu::fail(errors::ExtraUrlPathSegmentsSnafu{url: url})' % SEG,
+    'case(url::Url::path_segments(url) ~ Some(_)) > if((std::option::Option::unwrap(%s) != "")) > $m0 = %svirtual_host($m0, %sdecode::percent_decode(std::option::Option::unwrap(%s)))' % (SEG, OPT, U, SEG),
+    'case(url::Url::path_segments(url) ~ Some(_)) > if(std::option::Option::is_some(%s)) > return errors::ExtraUrlPathSegmentsSnafu::fail(errors::ExtraUrlPathSegmentsSnafu{url: url})' % SEG,
     'if(((url::Url::username(url) != "") || std::option::Option::is_some(url::Url::password(url)))) > $m0 = %sauth($m0, auth::Auth::Plain{password: %sdecode::percent_decode(std::option::Option::unwrap_or(url::Url::password(url), "guest")), '
     'username: %sdecode::percent_decode(match url::Url::username(url) {"" => "guest"; _ => url::Url::username(url)})})' % (OPT, U, U),
     'for(%s) > case(%s ~ "heartbeat") > $m0 = %sheartbeat($m0, %s)' % (QP, K, OPT, parse_to('u16', 'UrlParseHeartbeat')),
